@@ -69,10 +69,10 @@ Declared(c, st, b, s, lbl) ==
     [] lbl = "near+1" -> c.max - c.thr - base + 1
 
 \* constant menus for the .cfg files
-CfgC1 == [kind |-> "compressed", max |-> 100, cpb |-> 1, thr |-> 6]
-CfgI1 == [kind |-> "interned", max |-> 100, cpb |-> 1, thr |-> 6]
-CfgC2 == [kind |-> "compressed", max |-> 120, cpb |-> 2, thr |-> 6]
-CfgI2 == [kind |-> "interned", max |-> 120, cpb |-> 2, thr |-> 6]
+CfgC1 == [kind |-> "compressed", max |-> 100, cpb |-> 1, thr |-> 6, skip |-> 2]
+CfgI1 == [kind |-> "interned", max |-> 100, cpb |-> 1, thr |-> 6, skip |-> 2]
+CfgC2 == [kind |-> "compressed", max |-> 120, cpb |-> 2, thr |-> 6, skip |-> 2]
+CfgI2 == [kind |-> "interned", max |-> 120, cpb |-> 2, thr |-> 6, skip |-> 2]
 ConfigsBoth == {CfgC1, CfgI1}
 ConfigsAll  == {CfgC1, CfgI1, CfgC2, CfgI2}
 LabelsAll   == {"zero", "truthful", "huge", "pre-1", "pre0", "pre+1", "fit-1", "fit0", "fit+1", "near0", "near+1"}
@@ -132,6 +132,10 @@ ExactInEnvelope == phase = "open" => ExactSize(cfg, St) \in FinalSizes(cfg, St)
 \* a rejected add reports the exit the guards dictate and an accepted add never exceeds the limit
 AcceptWithinLimit == (last.k = "add" /\ last.added) => Est(cfg, St) <= cfg.max
 DoneMeansNoRoom == (last.k = "add" /\ last.added) => (last.done <=> Est(cfg, St) + cfg.thr > cfg.max)
+
+\* the Done flag of a rejected attempt: always at the "full" exit, otherwise iff more than c.skip attempts were skipped
+RejectDone == (last.k = "add" /\ ~last.added) =>
+                 IF last.exit = "full" THEN last.done ELSE (last.done <=> skipped > cfg.skip)
 
 Emit == (TrackHist /\ phase = "finalized") =>
           PrintT(<<"CASE", ToJson([kind |-> cfg.kind, steps |-> hist, cost |-> last.cost, exact |-> last.exact])>>)
